@@ -100,10 +100,14 @@ def _set(v):
 
 def features(beh):
     """situation features of a simulated behaviour (list of dict(label, last, body)): who meets what in
-    which state - computed from TLC's states, not only from the action names"""
+    which state - computed from TLC's states AND from what the implementation may remember although the
+    model state has forgotten it: how each member's timer was armed (by its join, by a coordinator change,
+    by a recovery), and who reported in an earlier window that was closed (by what) under this coordinator"""
     feats = set()
     prev = None
     pk = 'Open'
+    origin = {}
+    stale, closer = set(), '-'
     for st in beh:
         body = st['body']
         cur = {v: core.tlaval.state_var(body, v) for v in ('exists', 'members', 'coord', 'fo', 'pend', 'tmr',
@@ -116,17 +120,18 @@ def features(beh):
             obs = core.tlaval.state_var(body, 'obs')
             moved = cur['coord'] != coord
             if k == 'Heartbeat':
-                f = (k, obs['err'], a['s'] == coord, a['m'] in mem, a['es'], len(mem))
+                f = (k, obs['err'], a['s'] == coord, a['m'] in mem, a['es'], len(mem), origin.get(a['m'], '-'))
             elif k == 'Report':
                 f = (k, obs['err'], a['srv'], a['ps'], a['m'] in mem, len(mem), len(wit & mem), len(wit - mem),
-                     coord + '>' + cur['coord'] if moved else '-')
+                     coord + '>' + cur['coord'] if moved else '-', len(stale & mem), closer if stale & mem else '-')
             elif k == 'ReportCheck':
                 f = (k, obs['err'], a['ps'], len(mem), len(prev['pend']))
             elif k == 'ReportApply':
                 r = prev['pend'][a['i'] - 1]
-                f = (k, obs['err'], r['c'] != coord, r['m'] in mem, len(mem), len(wit & mem), moved)
+                f = (k, obs['err'], r['c'] != coord, r['m'] in mem, len(mem), len(wit & mem), moved,
+                     len(stale & mem))
             elif k == 'Wait':
-                modes = tuple(sorted(a['hb'][m] for m in mem))
+                modes = tuple(sorted((a['hb'][m], origin.get(m, '-')) for m in mem))
                 f = (k, coord, modes, prev['fo']['on'], cur['exists'], a['park'])
             elif k == 'ExpireApply':
                 m = a['m']
@@ -142,6 +147,23 @@ def features(beh):
             feats.add(f)
             feats.add(('2gram', pk, k, coord, bool(moved)))
             pk = k
+            # what the implementation may remember
+            nmem = _set(cur['members'])
+            if not cur['exists']:
+                origin, stale, closer = {}, set(), '-'
+            else:
+                if moved and prev['exists']:
+                    origin = {m: 'moved' for m in nmem}
+                    stale, closer = set(), '-'
+                elif k == 'Restart' and coord == 'b':
+                    origin = {m: 'recovered' for m in nmem}
+                for m in nmem - mem:
+                    origin[m] = 'join'
+                for m in mem - nmem:
+                    origin.pop(m, None)
+                if prev['fo']['on'] and not cur['fo']['on'] and not moved:
+                    stale |= wit
+                    closer = k
         prev = cur
     return feats
 
@@ -149,18 +171,30 @@ def features(beh):
 def select(pool, budget, rng, per_feature=2):
     """greedy choice of behaviours from the simulated pool: every situation feature a few times, within a
     budget of waiting time"""
-    items = []
-    for beh in pool:
-        steps = [s['last'] for s in beh[1:]]
-        if steps:
-            items.append((steps, features(beh)))
+    pool = [beh for beh in pool if len(beh) > 1]
+    try:
+        import concurrent.futures
+        with concurrent.futures.ProcessPoolExecutor(4) as ex:
+            fsets = list(ex.map(features, pool, chunksize=50))
+    except Exception:
+        fsets = [features(beh) for beh in pool]
+    items = [([s['last'] for s in beh[1:]], fs) for beh, fs in zip(pool, fsets)]
     rng.shuffle(items)
-    count = {}
-    chosen = []
-    spent = 0.0
     allf = set()
     for steps, fs in items:
         allf |= fs
+    # candidates: only behaviours that show a feature not seen often enough in the behaviours before them
+    seen = {}
+    cand = []
+    for steps, fs in items:
+        if any(seen.get(f, 0) < per_feature + 2 for f in fs):
+            cand.append((steps, fs))
+            for f in fs:
+                seen[f] = seen.get(f, 0) + 1
+    items = cand
+    count = {}
+    chosen = []
+    spent = 0.0
     while True:
         best, bi = 0, None
         for i, (steps, fs) in enumerate(items):
@@ -255,7 +289,8 @@ def crash_lines(intent, what):
         step['park'] = bool(step.get('park'))
     last = evs[-1]['st']
     evs.append({'t': intent['t'], 'a': a, 'args': step, 'st': last,
-                'obs': {'a': a, 'err': '', 'fired': [], 'acc': [], 'rej': [], 'asg': [], 'crash': what}})
+                'obs': {'a': a, 'err': '', 'fired': [], 'acc': [], 'rej': [], 'asg': [], 'rc': '', 're': 0,
+                        'crash': what}})
     return evs
 
 
@@ -400,6 +435,48 @@ def variant(rep, cfg, what, workers=1):
 ALL_GOOD = {'a': 'Wait', 'hb': {m: 'good' for m in MEMBERS}, 'park': False}
 
 
+def families():
+    """exhaustive directed families for situations that need 5-8 steps (a random walk hardly ever gets there):
+    (1) timers armed by a coordinator change / by a recovery / by the joins, then a period in which every
+        combination of members keeps heartbeating or falls silent;
+    (2) a registered report, then something that closes the window (controller loss, time, restart), then the
+        reports of the other members"""
+    out = []
+
+    def join(ms, c0):
+        return [{'a': 'Join', 'srv': 'a', 'm': m, 'c0': c0 if i == 0 else 'none'} for i, m in enumerate(ms)]
+
+    def elect(ms, pref):
+        need = len(ms) // 2 + 1
+        return [{'a': 'Report', 'srv': 'a', 'm': m, 'ps': 'cur', 'pref': pref if i == need - 1 else 'none'}
+                for i, m in enumerate(ms[:need])]
+
+    def waits(ms):
+        n = len(ms)
+        for bits in range(2 ** n):
+            hb = {m: 'none' for m in MEMBERS}
+            for i, m in enumerate(ms):
+                if bits >> i & 1:
+                    hb[m] = 'good'
+            yield {'a': 'Wait', 'hb': hb, 'park': False}
+
+    for k in (2, 3):
+        ms = MEMBERS[:k]
+        for w in waits(ms):
+            out.append(join(ms, 'a') + elect(ms, 'b') + [w])                     # moved a -> b
+            out.append(join(ms, 'b') + elect(ms, 'a') + [w])                     # moved b -> a
+            out.append(join(ms, 'b') + [{'a': 'Restart', 's': 'b'}] + [w])        # recovered at b
+        for closer in ([{'a': 'Lose'}], [ALL_GOOD], [{'a': 'Restart', 's': 'b'}]):
+            rest = [{'a': 'Report', 'srv': 'a', 'm': m, 'ps': 'cur', 'pref': 'none'} for m in ms[1:]]
+            first = [{'a': 'Report', 'srv': 'a', 'm': ms[0], 'ps': 'cur', 'pref': 'none'}]
+            # the window is closed: the later reports alone must (k = 2) / may (k = 3, two of three) not / elect
+            out.append(join(ms, 'a') + first + closer + rest[:1] + [ALL_GOOD])
+            if k == 3:
+                last = dict(rest[1], pref='b')
+                out.append(join(ms, 'a') + first + closer + rest[:1] + [last] + [ALL_GOOD])
+    return out
+
+
 def run(rep, tier, seed, replay):
     rng = random.Random(seed)
     if replay:
@@ -432,6 +509,15 @@ def run(rep, tier, seed, replay):
         cx = variant(rep, cfg, what)
         directed.append(cx)
         directed.append(cx + [ALL_GOOD])
+    fam = families()
+    if quick:
+        # the quick tier takes the two-member families completely and a seeded half of the rest
+        two = [f for f in fam if not any(s.get('m') == 'm3' for s in f)]
+        rest = [f for f in fam if f not in two]
+        rng.shuffle(rest)
+        fam = two + rest[:len(rest) // 2]
+    rep.cov['behaviours_directed_families'] = len(fam)
+    directed += fam
     # 3. EVERY sequence of effective steps up to a small depth (what the real system remembers and the model
     #    state has forgotten); the quick tier replays a seeded sample of them
     gp = graph.tlc_dump('MC_GroupLiveness.tla', 'MC_GroupLiveness_paths.cfg' if quick else
@@ -443,7 +529,7 @@ def run(rep, tier, seed, replay):
         rng.shuffle(pathb)
         keep, spent = [], 0.0
         for p in pathb:
-            if spent + cost(p) <= 45:
+            if spent + cost(p) <= 60:
                 keep.append(p)
                 spent += cost(p)
         pathb = keep
@@ -451,9 +537,9 @@ def run(rep, tier, seed, replay):
     pathb = [p if p[-1]['a'] == 'Wait' else p + [ALL_GOOD] for p in pathb]
     rep.cov['step_sequences_replayed'] = len(pathb)
     # 4. a large simulated pool, reduced to the behaviours that cover the situation features
-    pool = core.tlc_simulate('MC_GroupLiveness.tla', 'Sim_GroupLiveness.cfg', 2500 if quick else 20000,
+    pool = core.tlc_simulate('MC_GroupLiveness.tla', 'Sim_GroupLiveness.cfg', 4000 if quick else 20000,
                              12 if quick else 14, seed, timeout=900)
-    simb, fcov, ftot = select(pool, 70 if quick else 1500, rng, per_feature=1 if quick else 3)
+    simb, fcov, ftot = select(pool, 110 if quick else 1500, rng, per_feature=1 if quick else 3)
     rep.cov['situation_features_in_pool'] = ftot
     rep.cov['situation_features_replayed'] = fcov
     behaviours = []
